@@ -23,8 +23,8 @@ import (
 )
 
 const (
-	D0 = "eth"
-	D1 = "usdc"
+	D0      = "eth"
+	D1      = "usdc"
 	NActors = 4
 )
 
@@ -43,8 +43,10 @@ type Sim struct {
 	IncentiveDeposited   map[string]*big.Int
 	Known                map[uint64]PosRec // harness's own record of live positions
 	MaxTicks             int
-	Gen                  int // bumped by every swap, time advance, incentive creation and claim
+	Gen                  int      // bumped by every swap, time advance, incentive creation and claim
 	MaxLiq               *big.Int // max over the history of the summed liquidity of all positions (truncated)
+	SpreadLedger         bool     // C08: check every swap's spread-fee attribution per position against the exact curve walk
+	LedgerChecked        int
 	InvSqrt2             *big.Rat // sum over successful swaps of 1/min(sqrt price before, after)^2 (token0 cost of one 1e-36 sqrt-price rounding per unit liquidity)
 	Legacy               bool     // unscaled spread-reward accumulator (pool id <= migration threshold)
 	LegacyInc            bool     // unscaled incentive accumulators
@@ -70,9 +72,9 @@ type PosRec struct {
 }
 
 type SwapInfo struct {
-	ZeroForOne bool
-	ExactIn    bool
-	In, Out    *big.Int
+	ZeroForOne            bool
+	ExactIn               bool
+	In, Out               *big.Int
 	TickBefore, TickAfter int64
 	SqrtBefore, SqrtAfter osmomath.BigDec
 }
@@ -441,11 +443,23 @@ func (s *Sim) Swap(rt *rapid.T) {
 	b0 := s.balances(trader)
 	var r chain.ExecResult
 	var amt *big.Int
+	var ledger *spreadLedger
+	defer func() {
+		if ledger != nil && r.OK() {
+			ledger.check(rt, s, in)
+		}
+	}()
 	if exactIn {
 		amt = s.swapAmount(rt, in)
+		if s.SpreadLedger {
+			ledger = s.newSpreadLedger(zfo, true, amt, in)
+		}
 		r = s.C.Exec(&pmtypes.MsgSwapExactAmountIn{Sender: trader.String(), Routes: []pmtypes.SwapAmountInRoute{{PoolId: s.PoolID, TokenOutDenom: out}}, TokenIn: coin(in, amt), TokenOutMinAmount: osmomath.OneInt()})
 	} else {
 		amt = s.swapAmount(rt, out)
+		if s.SpreadLedger {
+			ledger = s.newSpreadLedger(zfo, false, amt, in)
+		}
 		max, _ := new(big.Int).SetString("100000000000000000000000000000000000000000", 10)
 		r = s.C.Exec(&pmtypes.MsgSwapExactAmountOut{Sender: trader.String(), Routes: []pmtypes.SwapAmountOutRoute{{PoolId: s.PoolID, TokenInDenom: in}}, TokenInMaxAmount: osmomath.NewIntFromBigInt(max), TokenOut: coin(out, amt)})
 	}
